@@ -66,35 +66,35 @@ type point struct {
 
 // Failure is one oracle violation.
 type Failure struct {
-	Sig     string `json:"sig"`
-	Msg     string `json:"msg"`
-	Config  string `json:"config"`
-	CfgIdx  int    `json:"cfg_idx"`
-	Choices []int  `json:"choices"`
+	Sig     string   `json:"sig"`
+	Msg     string   `json:"msg"`
+	Config  string   `json:"config"`
+	CfgIdx  int      `json:"cfg_idx"`
+	Choices []int    `json:"choices"`
 	Labels  []string `json:"labels,omitempty"`
 }
 
 // X is one execution.
 type X struct {
-	e       *explorer
-	cfgIdx  int
-	prefix  []int
-	expect  []point
-	choices []int
-	points  []point
-	devs    int
-	obsHash uint64
-	obsLog  []string
-	trace   bool
-	fails   []Failure
-	outcome string
-	pruned  bool
+	e           *explorer
+	cfgIdx      int
+	prefix      []int
+	expect      []point
+	choices     []int
+	points      []point
+	devs        int
+	obsHash     uint64
+	obsLog      []string
+	trace       bool
+	fails       []Failure
+	outcome     string
+	pruned      bool
 	depthOfSeen int
-	T       *testing.T
-	nondet  string
-	seenLog    []bool // results of Seen calls past the prefix
-	seenReplay []bool // when non-nil: answers to give instead of consulting the visited set
-	seenPos    int
+	T           *testing.T
+	nondet      string
+	seenLog     []bool // results of Seen calls past the prefix
+	seenReplay  []bool // when non-nil: answers to give instead of consulting the visited set
+	seenPos     int
 }
 
 type pruneSentinel struct{}
@@ -242,32 +242,32 @@ func (x *X) Seen(key string) bool {
 type seenEntry struct{ devs, depth int }
 
 type explorer struct {
-	h          Harness
-	t          *testing.T
-	tier       string
-	budget     int
-	noPrune    bool
-	maxPoints  int
-	deadline   time.Time
-	timedOut   bool
-	execs      int64
-	transitions int64
-	pruned     int64
-	maxEnabled int
-	maxDevs    int
-	states     map[uint64]struct{}
-	stateKeys  map[string][]seenEntry
-	outcomes   map[string]int64
-	failures   []Failure
-	failSigs   map[string]int
-	samples    []Sample
-	inflight   *os.File
+	h              Harness
+	t              *testing.T
+	tier           string
+	budget         int
+	noPrune        bool
+	maxPoints      int
+	deadline       time.Time
+	timedOut       bool
+	execs          int64
+	transitions    int64
+	pruned         int64
+	maxEnabled     int
+	maxDevs        int
+	states         map[uint64]struct{}
+	stateKeys      map[string][]seenEntry
+	outcomes       map[string]int64
+	failures       []Failure
+	failSigs       map[string]int
+	samples        []Sample
+	inflight       *os.File
 	shardI, shardN int
 	subtreeCounter int
-	replayChecks int64
-	cfgName    string
-	nondet     []string
-	sampleEvery int64
+	replayChecks   int64
+	cfgName        string
+	nondet         []string
+	sampleEvery    int64
 }
 
 // Sample is a fully written-out execution kept for the evidence file.
@@ -530,28 +530,28 @@ func (e *explorer) addSample(cfgIdx int, cfg Cfg, choices []int) {
 
 // Result is what one worker reports.
 type Result struct {
-	ID           string           `json:"id"`
-	Tier         string           `json:"tier"`
-	Shard        string           `json:"shard"`
-	Configs      int              `json:"configs"`
-	ConfigsDone  int              `json:"configs_done"`
-	Executions   int64            `json:"executions"`
-	Transitions  int64            `json:"transitions"`
-	States       int              `json:"states"`
-	Pruned       int64            `json:"pruned"`
-	MaxEnabled   int              `json:"max_enabled"`
-	MaxDevs      int              `json:"max_devs"`
-	Budget       int              `json:"budget_max"`
-	Outcomes     map[string]int64 `json:"outcomes"`
-	DistinctOutcomes int          `json:"distinct_outcomes"`
-	Failures     []Failure        `json:"failures"`
-	FailSigs     map[string]int   `json:"fail_sigs"`
-	Samples      []Sample         `json:"samples"`
-	Exhaustive   bool             `json:"exhaustive"`
-	ReplayChecks int64            `json:"replay_checks"`
-	Nondet       []string         `json:"nondeterminism"`
-	WallS        float64          `json:"wall_s"`
-	Extra        map[string]int64 `json:"extra,omitempty"`
+	ID               string           `json:"id"`
+	Tier             string           `json:"tier"`
+	Shard            string           `json:"shard"`
+	Configs          int              `json:"configs"`
+	ConfigsDone      int              `json:"configs_done"`
+	Executions       int64            `json:"executions"`
+	Transitions      int64            `json:"transitions"`
+	States           int              `json:"states"`
+	Pruned           int64            `json:"pruned"`
+	MaxEnabled       int              `json:"max_enabled"`
+	MaxDevs          int              `json:"max_devs"`
+	Budget           int              `json:"budget_max"`
+	Outcomes         map[string]int64 `json:"outcomes"`
+	DistinctOutcomes int              `json:"distinct_outcomes"`
+	Failures         []Failure        `json:"failures"`
+	FailSigs         map[string]int   `json:"fail_sigs"`
+	Samples          []Sample         `json:"samples"`
+	Exhaustive       bool             `json:"exhaustive"`
+	ReplayChecks     int64            `json:"replay_checks"`
+	Nondet           []string         `json:"nondeterminism"`
+	WallS            float64          `json:"wall_s"`
+	Extra            map[string]int64 `json:"extra,omitempty"`
 }
 
 // Extra counters a harness may bump (per process; merged by the parent).
@@ -680,13 +680,13 @@ func topOutcomes(m map[string]int64, n int) map[string]int64 {
 
 // ReplayFile is the replay artefact format.
 type ReplayFile struct {
-	Property string `json:"property"`
-	Config   string `json:"config"`
-	CfgIdx   int    `json:"cfg_idx"`
-	Tier     string `json:"tier"`
-	Choices  []int  `json:"choices"`
-	Sig      string `json:"sig,omitempty"`
-	Msg      string `json:"msg,omitempty"`
+	Property string   `json:"property"`
+	Config   string   `json:"config"`
+	CfgIdx   int      `json:"cfg_idx"`
+	Tier     string   `json:"tier"`
+	Choices  []int    `json:"choices"`
+	Sig      string   `json:"sig,omitempty"`
+	Msg      string   `json:"msg,omitempty"`
 	Labels   []string `json:"labels,omitempty"`
 }
 
